@@ -319,22 +319,24 @@ Definition current : cfg :=
 
 (** * Txn.Get (the point read the listings are compared with)
 
-    Pending write first; otherwise LSM.Get at readTs.  A hit in a table comes
-    back through kv.SafeCopy(nil, value), which turns an empty value into a nil
-    slice, and Txn.Get treats [Value == nil && Meta == 0] as not found; a hit in
-    a memtable keeps a non-nil empty slice. *)
+    Pending write first; otherwise LSM.Get at readTs (the greatest version <=
+    readTs over every memtable and level, the first scanned copy winning ties).
+    When the winning copy comes from a table it went through
+    kv.SafeCopy(nil, value), which turns an empty value into a nil slice, and
+    Txn.Get treats [Value == nil && Meta == 0] as not found; a copy from a
+    memtable keeps a non-nil empty slice.  The memtables' best hit is replaced
+    by a table's only on a strictly greater version, so the winner is a
+    memtable's exactly when it has the version of the memtables' best. *)
 Definition txn_get (now : N) (s : state) (readTs : N) (pw : list rec) (bk : bytes) : option bytes :=
   match find (fun p => bytes_eqb (r_key p) bk) pw with
   | Some p => if deadb now p then None else Some (r_val p)
   | None =>
-      match first_some (mem_get bk readTs (st_mem s) :: map (fun m => mem_get bk readTs (snd m)) (rev (st_imms s))) with
-      | Some r => if deadb now r then None else Some (r_val r)
-      | None =>
-          match get s bk readTs with
-          | Some r =>
-              if negb (nonempty (r_val r)) && (r_meta r =? 0) then None
-              else if deadb now r then None else Some (r_val r)
-          | None => None
-          end
+      let b1 := fold_left (mem_step bk readTs) (st_mem s :: map snd (rev (st_imms s))) None in
+      match get s bk readTs with
+      | Some r =>
+          let from_mem := match b1 with Some b => r_ver b =? r_ver r | None => false end in
+          if negb from_mem && negb (nonempty (r_val r)) && (r_meta r =? 0) then None
+          else if deadb now r then None else Some (r_val r)
+      | None => None
       end
   end.
